@@ -93,6 +93,16 @@ class Schema(object):
                     else:
                         a.cascade = bool(a.cascade_opt)
 
+    @staticmethod
+    def ref_has_columns(e, a):
+        """to-one attributes that certainly own the foreign-key columns: many-to-one, and the required side of a
+        one-to-one relationship whose other side is optional"""
+        if a.reverse is None or a.is_set:
+            return False
+        if a.reverse.is_set:
+            return True
+        return a.kind == 'req' and a.reverse.kind == 'opt'
+
     # ---- Pony source
     def source(self, knobs=None):
         knobs = knobs or {}
@@ -110,6 +120,8 @@ class Schema(object):
                     if a.cascade_opt is not None:
                         kw.append('cascade_delete=%r' % bool(a.cascade_opt))
                     if a.is_set and knobs.get('lazy_sets'):
+                        kw.append('lazy=True')
+                    if not a.is_set and not a.is_pk and knobs.get('lazy_refs') and self.ref_has_columns(e, a):
                         kw.append('lazy=True')
                 else:
                     args.append(a.type)
